@@ -1,6 +1,15 @@
 """Per-property build and budget configuration used by ./check."""
 
-SIM_WRAPS = []  # filled in below once sim/ exists
+# link-time interposition points of the simulation core (sim/sim.cc)
+SIM_WRAPS = ["coap_ticks", "close", "epoll_ctl", "epoll_wait", "recv", "send",
+             "coap_socket_bind_udp", "coap_socket_connect_udp", "coap_socket_send", "coap_socket_recv",
+             "coap_socket_bind_tcp", "coap_socket_connect_tcp1", "coap_socket_connect_tcp2", "coap_socket_accept_tcp"]
+SIM = dict(wraps=SIM_WRAPS, extra_sources=["sim/sim.cc"])
+
+
+def enum(workers, total):
+    step = (total + workers - 1) // workers
+    return [{"mode": "enum", "from": i * step, "to": min(total, (i + 1) * step)} for i in range(workers)]
 
 
 def rc(workers, cases, **kw):
@@ -14,6 +23,18 @@ def fuzz(workers, runs, **kw):
 NOT_CLAIMED = {}
 
 PROPS = {
+    "C06": dict(
+        level="exploration",
+        technique="simulation-based property testing: real coap_io_process on a virtual clock/network (ld --wrap), scripted peers and fault plans from a rapidcheck tape; trace oracle = reference retransmission schedule model; exhaustive drop-subset enumeration",
+        level_text="Generated loss/duplication/delay patterns, timer settings and PRNG draws; the world sleeps exactly as long as the library reports, so both the "
+                   "schedule (exact doubling, T in range, stop at ACK/RST, MAX_RETRANSMIT) and the reported wait are decided from the complete wire/callback trace. "
+                   "The thorough tier enumerates all 1024 drop subsets of the first 10 datagrams for 6 timer settings.",
+        level_note="Trusted base: sim/sim.cc (virtual sockets replace coap_socket_* of coap_io.c), ref/refcodec.h. Tolerance on T is the Q.6 fixed point representation only. "
+                   "NACK calls with a NULL PDU (unmatched RST) are labelled, not counted as a message outcome.",
+        quick=rc(8, 12000) + enum(2, 1024),
+        thorough=rc(12, 300000) + enum(4, 6144),
+        **SIM,
+    ),
     "C20": dict(
         level="exploration",
         technique="property-based testing (rapidcheck tape generator + libFuzzer) of generated resource tables x filters against an independent RFC 6690 printer/filter, with exhaustive (offset, buffer length) window enumeration per table",
